@@ -116,7 +116,31 @@ def rule_fill_buf(facts):
                     okk = False
                     r.bad("%s|scan-exit" % fn, "the scan loop has no emptiness exit", where)
                 else:
-                    detail.append("scan loop: consume(len) and back to fill_buf until empty")
+                    # the loop over refills may be left only through a test on the peeked data (empty -> done, a byte that
+                    # decides the verdict): an exit that counts rounds makes the verdict depend on the number of fragments
+                    lb = set()
+                    for h, blocks, _ in c.loops():
+                        if me in blocks:
+                            lb |= blocks
+                    bad_exit = None
+                    for x in sorted(lb):
+                        blkx = b.blocks[x]
+                        for y in c.succ[x]:
+                            if y in lb:
+                                continue
+                            # exit edge x -> y: x must be a test on the peeked buffer, or a `?` on fill_buf / an inner iterator over it
+                            tx = tm.of_operand(blkx.term.discr) if blkx.term.k == "switch" else None
+                            if tx is not None and (flow.term_has(tx, is_me) or pat.has_call(tx, "Try::branch")):
+                                continue
+                            if tx is not None and tx[0] == "discr" and flow.term_has(tx, lambda q: q[0] == "try"):
+                                continue
+                            bad_exit = x
+                    if bad_exit is not None:
+                        okk = False
+                        r.bad("%s|scan-bounded" % fn, "the loop over refills can be left for a reason other than the peeked data (e.g. a round "
+                              "counter): the verdict depends on how many fragments the reader delivers", pat.where(b, bad_exit))
+                    else:
+                        detail.append("scan loop: consume(len) and back to fill_buf until empty")
             if okk:
                 r.ok("provenance", {"fn": fn, "uses": detail or ["emptiness"]})
     r.sites = n
